@@ -67,7 +67,77 @@ pub open spec fn is_line_comment_tt(t: TokenType) -> bool { t is SingleLineComme
 // whitespace the formatter itself creates: configured newline, configured indent, a run of spaces
 pub uninterp spec fn is_indent_for(t: Token, c: Config) -> bool;
 pub open spec fn is_cfg_ws(t: Token, c: Config) -> bool {
-    is_newline_for(t, c) || is_indent_for(t, c) || exists|n: usize| token_type_of(t) == #[trigger] spaces_tt(n)
+    token_type_of(t) is Whitespace && (is_newline_for(t, c) || is_indent_for(t, c) || exists|n: usize| token_type_of(t) == #[trigger] spaces_tt(n))
+}
+pub open spec fn is_trivia_tt(t: TokenType) -> bool { t is Whitespace || is_comment_tt(t) }
+pub open spec fn all_trivia(s: Seq<Token>) -> bool { forall|i: int| 0 <= i < s.len() ==> is_trivia_tt(token_type_of(#[trigger] s[i])) }
+// pairwise: b[i] is a[i] rewritten as format_token may
+pub open spec fn cms_match(c: Config, a: Seq<Token>, b: Seq<Token>) -> bool {
+    a.len() == b.len() && forall|i: int| 0 <= i < a.len() ==> fmt_tt(c, token_type_of(#[trigger] a[i]), token_type_of(b[i]))
+}
+pub proof fn lemma_cms_append_noncomment(a: Seq<Token>, b: Seq<Token>)
+    requires forall|i: int| 0 <= i < b.len() ==> !is_comment_tt(token_type_of(#[trigger] b[i])),
+    ensures cms(a + b) == cms(a),
+    decreases b.len(),
+{
+    if b.len() == 0 { assert(a + b =~= a); }
+    else {
+        lemma_cms_append_noncomment(a, b.drop_last());
+        assert((a + b).drop_last() =~= a + b.drop_last());
+        assert((a + b).last() == b.last());
+    }
+}
+pub proof fn lemma_cms_push(a: Seq<Token>, x: Token)
+    ensures cms(a.push(x)) == (if is_comment_tt(token_type_of(x)) { cms(a).push(x) } else { cms(a) }),
+{
+    assert(a.push(x).drop_last() =~= a);
+}
+pub open spec fn cms_front(s: Seq<Token>) -> Seq<Token>     // cms defined from the front (same sequence, other recursion)
+    decreases s.len()
+{
+    if s.len() == 0 { Seq::empty() } else if is_comment_tt(token_type_of(s[0])) { seq![s[0]] + cms_front(s.skip(1)) } else { cms_front(s.skip(1)) }
+}
+pub proof fn lemma_cms_front(s: Seq<Token>)
+    ensures cms_front(s) == cms(s),
+    decreases s.len(),
+{
+    if s.len() == 0 { }
+    else if s.len() == 1 {
+        assert(s.skip(1) =~= Seq::<Token>::empty()); assert(s.drop_last() =~= Seq::<Token>::empty());
+        assert(cms_front(s.skip(1)) =~= Seq::<Token>::empty()); assert(cms(s.drop_last()) =~= Seq::<Token>::empty());
+        assert(s.last() == s[0]);
+        assert(cms_front(s) =~= cms(s));
+    }
+    else {
+        lemma_cms_front(s.drop_last()); lemma_cms_front(s.skip(1)); lemma_cms_front(s.skip(1).drop_last());
+        assert(s.skip(1).drop_last() =~= s.drop_last().skip(1));
+        assert(s.drop_last()[0] == s[0]); assert(s.skip(1).last() == s.last());
+        assert(cms_front(s) =~= cms(s));
+    }
+}
+pub proof fn lemma_cms_reverse(s: Seq<Token>)
+    ensures cms(s.reverse()) == cms(s).reverse(),
+    decreases s.len(),
+{
+    if s.len() == 0 { assert(s.reverse() =~= s); assert(cms(s).reverse() =~= cms(s)); }
+    else {
+        let r = s.reverse();
+        lemma_cms_reverse(s.drop_last());
+        lemma_cms_front(r);
+        assert(r[0] == s.last());
+        assert(r.skip(1) =~= s.drop_last().reverse());
+        lemma_cms_front(r.skip(1));
+        if is_comment_tt(token_type_of(s.last())) {
+            assert(cms(s) == cms(s.drop_last()).push(s.last()));
+            assert(cms(s).reverse() =~= seq![s.last()] + cms(s.drop_last()).reverse());
+        }
+    }
+}
+pub proof fn lemma_take_push<T>(s: Seq<T>, k: int)
+    requires 0 <= k < s.len(),
+    ensures s.take(k + 1) == s.take(k).push(s[k]),
+{
+    assert(s.take(k + 1) =~= s.take(k).push(s[k]));
 }
 // comments of a trivia sequence, in order
 pub open spec fn cms(s: Seq<Token>) -> Seq<Token>
@@ -104,8 +174,7 @@ pub open spec fn derefs(s: Seq<&Token>) -> Seq<Token> { s.map_values(|t: &Token|
 // what load_token_trivia owes: comments kept in order, each only rewritten as fmt_tt allows; everything else it
 // emits is whitespace it created itself; in leading trivia every line comment is followed by a newline
 pub open spec fn load_post(c: Config, input: Seq<Token>, mode: FormatTokenType, out: Seq<Token>) -> bool {
-    &&& cms(out).len() == cms(input).len()
-    &&& forall|i: int| 0 <= i < cms(input).len() ==> fmt_tt(c, token_type_of(#[trigger] cms(input)[i]), token_type_of(cms(out)[i]))
+    &&& cms_match(c, cms(input), cms(out))
     &&& forall|j: int| 0 <= j < out.len() && !is_comment_tt(token_type_of(#[trigger] out[j])) ==> is_cfg_ws(out[j], c)
     &&& (mode is LeadingTrivia ==> forall|j: int| 0 <= j < out.len() && is_line_comment_tt(token_type_of(#[trigger] out[j])) ==> j + 1 < out.len() && is_newline_for(out[j + 1], c))
 }
@@ -166,8 +235,18 @@ VERIF_TOK = Raw(r"""
 // denoted byte string — C04's escape clause is NOT decided by this unit (DESIGN.md §5 C04, stretch goal)
 #[verifier::external_body] pub fn rewrite_escapes(s: &str, from: &StringLiteralQuoteType, to: &StringLiteralQuoteType) -> (r: full_moon::ShortString)
     ensures string_value(ss_view(r), *to) == string_value(s@, *from) { unimplemented!() }
-#[verifier::external_body] pub fn lead_refs(t: &TokenReference) -> (r: Vec<&Token>) ensures derefs(r@) == lead(*t) { unimplemented!() /* t.leading_trivia().collect() */ }
-#[verifier::external_body] pub fn trail_refs(t: &TokenReference) -> (r: Vec<&Token>) ensures derefs(r@) == trail(*t) { unimplemented!() /* t.trailing_trivia().collect() */ }
+pub proof fn axiom_trivia_valid(t: TokenReference) ensures all_trivia(lead(t)), all_trivia(trail(t)) { admit(); }   // parser: trivia lists hold whitespace and comments only (class A)
+pub proof fn axiom_spaces_ws(n: usize) ensures spaces_tt(n) is Whitespace { admit(); }                              // TokenType::spaces yields the Whitespace variant (class A)
+#[verifier::external_body] pub fn peek_refs<'a, 'b>(v: &'b Vec<&'a Token>) -> (r: std::iter::Peekable<std::slice::Iter<'b, &'a Token>>)
+    ensures pk_rest(&r).len() == v@.len(), forall|i: int| 0 <= i < v@.len() ==> **(#[trigger] pk_rest(&r)[i]) == *v@[i] { unimplemented!() /* current_trivia.iter().peekable() */ }
+#[verifier::external_body] pub fn peek_rev<'b>(v: &'b Vec<Token>) -> (r: std::iter::Peekable<std::iter::Rev<std::slice::Iter<'b, Token>>>)
+    ensures pk_rest(&r).len() == v@.len(), forall|i: int| 0 <= i < v@.len() ==> *(#[trigger] pk_rest(&r)[i]) == v@.reverse()[i] { unimplemented!() /* v.iter().rev().peekable() */ }
+#[verifier::external_body] pub fn next_is_comment<I: Iterator>(it: &mut std::iter::Peekable<I>) -> (r: bool)
+    ensures pk_rest(final(it)) == pk_rest(old(it)) { unimplemented!() /* matches!(iter.peek().map(|x| x.token_kind()), Some(SingleLineComment) | Some(MultiLineComment)) */ }
+#[verifier::external_body] pub fn vec_reverse(v: &mut Vec<Token>) ensures final(v)@ == old(v)@.reverse() { unimplemented!() /* v.reverse() */ }
+#[verifier::external_body] pub fn ss_contains_char(s: &full_moon::ShortString, c: char) -> (r: bool) { unimplemented!() /* characters.contains(c) */ }
+#[verifier::external_body] pub fn lead_refs(t: &TokenReference) -> (r: Vec<&Token>) ensures derefs(r@) == lead(*t), all_trivia(lead(*t)), r@.len() < i32::MAX { unimplemented!() /* t.leading_trivia().collect() */ }
+#[verifier::external_body] pub fn trail_refs(t: &TokenReference) -> (r: Vec<&Token>) ensures derefs(r@) == trail(*t), all_trivia(trail(*t)), r@.len() < i32::MAX { unimplemented!() /* t.trailing_trivia().collect() */ }
 #[verifier::external_body] pub fn lead_owned(t: &TokenReference) -> (r: Vec<Token>) ensures r@ == lead(*t) { unimplemented!() /* t.leading_trivia().map(|x| x.to_owned()).collect() */ }
 #[verifier::external_body] pub fn trail_owned(t: &TokenReference) -> (r: Vec<Token>) ensures r@ == trail(*t) { unimplemented!() /* t.trailing_trivia().map(|x| x.to_owned()).collect() */ }
 #[verifier::external_body] pub fn all_whitespace(v: &Vec<Token>) -> (r: bool)
@@ -181,6 +260,19 @@ RENL_CMT = """let comment = comment
                 .replace("\\r\\n", "\\n")
                 .replace('\\n', &line_ending_character(ctx.config().line_endings));"""
 
+LOAD_INV = """
+        invariant
+            input == derefs(current_trivia@), all_trivia(input), cfg == ctx.config,
+            0 <= k <= input.len(), pk_rest(&trivia_iter).len() == input.len() - k,
+            forall|j: int| 0 <= j < pk_rest(&trivia_iter).len() ==> **(#[trigger] pk_rest(&trivia_iter)[j]) == input[k + j],
+            0 <= newline_count_in_succession <= k, input.len() < i32::MAX,
+            cms_match(cfg, cms(input.take(k)), cms(token_trivia@)), //# C03.load_comments_kept
+            forall|j: int| 0 <= j < token_trivia@.len() && !is_comment_tt(token_type_of(#[trigger] token_trivia@[j])) ==> is_cfg_ws(token_trivia@[j], cfg), //# C10.load_only_own_whitespace
+            format_token_type is LeadingTrivia ==> forall|j: int| 0 <= j < token_trivia@.len() && is_line_comment_tt(token_type_of(#[trigger] token_trivia@[j])) ==> j + 1 < token_trivia@.len() && is_newline_for(token_trivia@[j + 1], cfg), //# C01.load_line_comment_terminated
+        ensures k == input.len(),
+        decreases pk_rest(&trivia_iter).len(),
+"""
+
 def items():
     its = [x for x in common_items() if not (isinstance(x, Fn) and x.file == CTX and x.name in ("create_indent_trivia", "create_newline_trivia"))]
     its += [
@@ -190,7 +282,7 @@ def items():
         Fn(CTX, "should_format_node", impl_of="Context", mode="stub", sig_edits=[VN], proved_in="ctx", contract="ensures r == decision(*self, node.key()),"),
         Fn(CTX, "line_ending_character", mode="stub", proved_in="ctx", contract="ensures r@ == le_seq(line_endings),"),
         Fn(CTX, "create_newline_trivia", mode="stub", proved_in="ctx", contract="ensures is_newline_for(r, ctx.config),"),
-        Fn(CTX, "create_indent_trivia", mode="stub", contract="ensures is_indent_for(r, ctx.config),",
+        Fn(CTX, "create_indent_trivia", mode="stub", contract="ensures is_indent_for(r, ctx.config), token_type_of(r) is Whitespace,",
            note="machine arithmetic: the indent computation is assumed not to overflow here (its precondition is stated in unit ctx)"),
         Item(GEN, "enum", "FormatTokenType", keep_derives=("Clone", "Copy")),
         Item(GEN, "enum", "EndTokenType", keep_derives=()),
@@ -234,8 +326,61 @@ def items():
             Hole(RENL_CMT, "let comment = verif::renl_str(comment.as_str(), &line_ending_character(ctx.config().line_endings));", kind="wrapper", why="str::replace x2 (newline convention)"),
             Hole("comment: comment.into(),", "comment: verif::into_short(comment),", kind="wrapper", why="<String as Into<ShortString>>::into"),
         ]),
-        Fn(GEN, "load_token_trivia", mode="stub", contract="ensures load_post(ctx.config, derefs(current_trivia@), format_token_type, r@),",
-           note="loop over a Peekable of &&Token with an inner next(): assumed here"),
+        Fn(GEN, "load_token_trivia", contract="""
+    requires all_trivia(derefs(current_trivia@)),
+             current_trivia@.len() < i32::MAX,   // machine arithmetic: the i32 newline counter cannot overflow (fewer than 2^31 trivia tokens on one token)
+    ensures load_post(ctx.config, derefs(current_trivia@), format_token_type, r@), //# C03.load_token_trivia
+""", edits=[
+            Hole("current_trivia.iter().peekable()", "verif::peek_refs(&current_trivia)", kind="wrapper", why="slice::iter().peekable() through a wrapper carrying the ghost sequence"),
+            Hole("characters.contains('\\n')", "verif::ss_contains_char(characters, '\\n')", kind="wrapper", why="str::contains::<char>", count=3),
+            After("let mut trivia_iter = verif::peek_refs(&current_trivia);", "let ghost input = derefs(current_trivia@); let ghost cfg = ctx.config; let ghost mut k: int = 0;"),
+            Loop("while let Some(trivia) = trivia_iter.next()", LOAD_INV, step=None,
+                 enter="proof { lemma_take_push(input, k); lemma_cms_push(input.take(k), input[k]); assert(**trivia == input[k]); k = k + 1; }\n let ghost out0 = token_trivia@; let ghost mut out1 = token_trivia@; let ghost mut out2 = token_trivia@; let ghost mut lead_extra: Option<Vec<Token>> = None; let ghost mut trail_extra: Option<Vec<Token>> = None;"),
+            After("token_trivia.push(create_newline_trivia(ctx));", "proof { lemma_cms_push(out0, token_trivia@.last()); }"),
+            Before("\n    token_trivia\n}", "proof { assert(input.take(input.len() as int) =~= input); }"),
+            After("token_trivia.push(Token::new(TokenType::spaces(1)))", "; proof { lemma_cms_push(out0, token_trivia@.last()); }"),
+            After("""                                // Consume iterator once to skip the next iteration
+                                trivia_iter.next();""", "proof { lemma_take_push(input, k); lemma_cms_push(input.take(k), input[k]); k = k + 1; }"),
+            After("format_token(ctx, trivia.to_owned(), format_token_type, shape);", "proof { lead_extra = leading_trivia; trail_extra = trailing_trivia; }"),
+            After("""        if let Some(mut trivia) = leading_trivia {
+            token_trivia.append(&mut trivia);
+        }""", "proof { out1 = token_trivia@; if lead_extra is Some { lemma_cms_append_noncomment(out0, lead_extra->Some_0@); } assert(cms(out1) == cms(out0)); }"),
+            After("token_trivia.push(token);", "proof { out2 = token_trivia@; lemma_cms_push(out1, token); }"),
+            After("""        if let Some(mut trivia) = trailing_trivia {
+            token_trivia.append(&mut trivia)
+        }""", "proof { if trail_extra is Some { lemma_cms_append_noncomment(out2, trail_extra->Some_0@); } assert(cms(token_trivia@) == cms(out2)); }"),
+        ]),
+        Fn(GEN, "format_end_token", contract="""
+    ensures
+        token_type_of(tr_token(r)) == token_type_of(tr_token(*current_token)), //# C02.end_token_unchanged
+        exists|l: Seq<Token>| #[trigger] load_post(ctx.config, lead(*current_token), FormatTokenType::LeadingTrivia, l) && cms(lead(r)) == cms(l), //# C03.end_token_comments
+        forall|j: int| 0 <= j < lead(r).len() && !is_comment_tt(token_type_of(#[trigger] lead(r)[j])) ==> is_cfg_ws(lead(r)[j], ctx.config), //# C10.end_token_whitespace
+        load_post(ctx.config, trail(*current_token), FormatTokenType::TrailingTrivia, trail(r)), //# C03.end_token_trailing
+""", edits=[
+            Hole("current_token.leading_trivia().collect()", "verif::lead_refs(current_token)", kind="wrapper", why="impl Iterator::collect"),
+            Hole("current_token.trailing_trivia().collect()", "verif::trail_refs(current_token)", kind="wrapper", why="impl Iterator::collect"),
+            Hole("formatted_leading_trivia.iter().rev().peekable()", "verif::peek_rev(&formatted_leading_trivia)", kind="wrapper", why="slice::iter().rev().peekable() through a wrapper carrying the ghost (reversed) sequence"),
+            Hole("characters.contains('\\n')", "verif::ss_contains_char(characters, '\\n')", kind="wrapper", why="str::contains::<char>"),
+            Hole("""!matches!(
+                        iter.peek().map(|x| x.token_kind()),
+                        Some(TokenKind::SingleLineComment) | Some(TokenKind::MultiLineComment)
+                    )""", "!verif::next_is_comment(&mut iter)", kind="wrapper", why="peek().map(closure) inside matches!"),
+            Hole("formatted_leading_trivia.reverse();", "verif::vec_reverse(&mut formatted_leading_trivia);", kind="wrapper", why="<[T]>::reverse through DerefMut"),
+            Before("let mut iter = verif::peek_rev(&formatted_leading_trivia);", "let ghost l0 = formatted_leading_trivia@; let ghost rv = l0.reverse(); let ghost cfg = ctx.config; let ghost mut k: int = 0;"),
+            Loop("while let Some(x) = iter.next()", """
+        invariant
+            rv == l0.reverse(), cfg == ctx.config, 0 <= k <= rv.len(), pk_rest(&iter).len() == rv.len() - k,
+            forall|j: int| 0 <= j < pk_rest(&iter).len() ==> *(#[trigger] pk_rest(&iter)[j]) == rv[k + j],
+            forall|j: int| 0 <= j < l0.len() && !is_comment_tt(token_type_of(#[trigger] l0[j])) ==> is_cfg_ws(l0[j], cfg),
+            cms(formatted_leading_trivia@) == cms(rv.take(k)), //# C03.end_token_loop
+            forall|j: int| 0 <= j < formatted_leading_trivia@.len() && !is_comment_tt(token_type_of(#[trigger] formatted_leading_trivia@[j])) ==> is_cfg_ws(formatted_leading_trivia@[j], cfg),
+        ensures k == rv.len(),
+        decreases pk_rest(&iter).len(),
+""", enter="proof { lemma_take_push(rv, k); lemma_cms_push(rv.take(k), rv[k]); assert(*x == rv[k]); assert(rv[k] == l0[l0.len() - 1 - k]); k = k + 1; }\n let ghost o0 = formatted_leading_trivia@;"),
+            After("formatted_leading_trivia.push(x.to_owned());", "proof { lemma_cms_push(o0, *x); }", count=2),
+            Before("verif::vec_reverse(&mut formatted_leading_trivia);", "let ghost ob = formatted_leading_trivia@;"),
+            After("verif::vec_reverse(&mut formatted_leading_trivia);", "proof { assert(rv.take(rv.len() as int) =~= rv); lemma_cms_reverse(l0); lemma_cms_reverse(ob); assert(cms(l0).reverse().reverse() =~= cms(l0)); assert(cms(formatted_leading_trivia@) == cms(l0)); assert(forall|j: int| 0 <= j < ob.len() ==> ob.reverse()[j] == ob[ob.len() - 1 - j]); }"),
+        ]),
         Fn(GEN, "format_token_reference", contract="""
     ensures
         fmt_tt(ctx.config, token_type_of(tr_token(*token_reference)), token_type_of(tr_token(r))), //# C03.tokref_token
@@ -301,6 +446,15 @@ LABELS = {
     "C03.no_comment_created": dict(props=["C03", "C10"], text="format_token: the extra leading/trailing trivia it asks for are configured newline / indent / space tokens only"),
     "C01.line_comment_terminated": dict(props=["C01", "C03"], text="format_token: a line comment or shebang in leading trivia is followed by exactly one configured newline"),
     "C10.no_extra_trivia_for_code_tokens": dict(props=["C10", "C03"], text="format_token adds no trivia around non-comment tokens"),
+    "C03.load_token_trivia": dict(props=["C03", "C10", "C01"], text="load_token_trivia: comments kept in order, each only rewritten as format_token allows; every other token it emits is whitespace it created; in leading trivia every line comment/shebang is followed by a configured newline"),
+    "C03.load_comments_kept": dict(props=["C03"], text="load_token_trivia loop invariant: the comments emitted so far are exactly the comments consumed so far (pairwise fmt_tt)"),
+    "C10.load_only_own_whitespace": dict(props=["C10", "C03"], text="load_token_trivia loop invariant: input whitespace is never copied; only configured newline / indent / space tokens are emitted"),
+    "C01.load_line_comment_terminated": dict(props=["C01", "C03"], text="load_token_trivia loop invariant (leading trivia): each line comment is immediately followed by a newline token"),
+    "C02.end_token_unchanged": dict(props=["C02"], text="format_end_token: the token itself (`end`, `}`, `)`, `until` ...) is returned unchanged"),
+    "C03.end_token_comments": dict(props=["C03"], text="format_end_token: the reverse pass that drops trailing blank lines before a block-closing token drops whitespace tokens only; the comment sequence is that of load_token_trivia"),
+    "C10.end_token_whitespace": dict(props=["C10"], text="format_end_token: every non-comment token left in the leading trivia is whitespace the formatter created"),
+    "C03.end_token_trailing": dict(props=["C03"], text="format_end_token: trailing trivia = load_token_trivia of the input's"),
+    "C03.end_token_loop": dict(props=["C03"], text="format_end_token loop invariant (reverse pass): comments kept so far = comments consumed so far"),
     "C03.tokref_token": dict(props=["C03", "C02", "C04"], text="format_token_reference: the token itself is only rewritten as format_token allows"),
     "C03.tokref_leading": dict(props=["C03", "C10", "C01"], text="format_token_reference: leading trivia = load_token_trivia of the input's leading trivia (comments kept in order)"),
     "C03.tokref_trailing": dict(props=["C03", "C10"], text="format_token_reference: trailing trivia = load_token_trivia of the input's trailing trivia"),
